@@ -489,6 +489,9 @@ def audit_cases(rng):
         for hold in (0, 3, 65535):
             caps = [('mp', W.IPV4), ('as4', asn)]
             add(std_caps()[0], std_caps()[1], ['open', asn, hold, 0x0a000001, caps], 'open_fields')
+            if asn <= 65535:     # a speaker without the four-octet capability: the AS travels in the fixed field only
+                add(std_caps()[0], std_caps()[1], ['open', asn, hold, 0x0a000001, [('mp', W.IPV4)]], 'open_fields', 'open_no_as4')
+                add(std_caps()[0], std_caps()[1], ['open', asn, hold, 0x0a000001, []], 'open_fields', 'open_no_as4')
     for rid in (1, 0x7fffffff, 0xdfffffff):
         add(std_caps()[0], std_caps()[1], ['open', 65001, 90, rid, [('mp', W.IPV4)]], 'open_fields')
     for total in range(248, 259):
